@@ -9,7 +9,7 @@ import Pko.Lemmas.ObjectSet
 import Pko.Props.C03
 
 namespace Pko.Props.C06
-open Pko.Kube Pko.Model.Phase Pko.Model.ObjectSet
+open Pko.Kube Pko.Model.Phase Pko.Model.ObjectSet Pko.Model.Status
 
 /-- **archived_terminal**: once Archived=True is recorded the pass is the identity — nothing is
 read further, nothing is written. -/
